@@ -287,13 +287,13 @@ def routing(out, mc, fns, pending):
 
 def build_ls():
     env = dict(os.environ)
-    env["CARGO_TARGET_DIR"] = "/verif/.build/native-repo"
+    env["CARGO_TARGET_DIR"] = os.path.join(os.environ.get("VERIF_ROOT", "/verif"), ".build", "native-repo")
     env["CARGO_NET_OFFLINE"] = "true"
     env.pop("RUSTFLAGS", None)
-    os.makedirs("/verif/.build/logs", exist_ok=True)
-    with open("/verif/.build/logs/emmylua_ls.build.log", "w") as log:
+    os.makedirs(os.path.join(os.environ.get("VERIF_ROOT", "/verif"), ".build", "logs"), exist_ok=True)
+    with open(os.path.join(os.environ.get("VERIF_ROOT", "/verif"), ".build", "logs", "emmylua_ls.build.log"), "w") as log:
         r = subprocess.run(["cargo", "build", "--offline", "-p", "emmylua_ls"], cwd="/repo", env=env, stdout=log, stderr=subprocess.STDOUT, timeout=3600)
-    exe = "/verif/.build/native-repo/debug/emmylua_ls"
+    exe = os.path.join(os.environ.get("VERIF_ROOT", "/verif"), ".build", "native-repo", "debug", "emmylua_ls")
     return exe if r.returncode == 0 and os.path.exists(exe) else None
 
 
